@@ -499,6 +499,10 @@ pub fn run(tier: Tier) -> Report {
     rep.assume("a decode that returns Err is always acceptable; a decode that returns a grid must be queryable without panic, abort, hang or exceeding 4 GiB of address space");
     let outcomes = Mutex::new(HashSet::new());
     well_formed(&rep);
+    // projected Gravsoft grids decode to the geometry and values written (shared with C08)
+    if let Err(p) = catch(|| crate::props::c08::projected_grids(&rep)) {
+        rep.violation(&format!("panic reading a projected grid: {}", panic_class(&p)), json!({"panic": p}));
+    }
     damaged(&rep, tier, &outcomes);
     let o = outcomes.into_inner().unwrap();
     rep.nontrivial_bulk(&o);
